@@ -182,7 +182,59 @@ def judge_special(case):
         viol.append({"kind": "detach:requires-grad", "detail": "detached tensor requires grad"})
     return {"nontrivial": True, "outcome": "ok", "violations": viol}
 
+def augassign_cases():
+    out = []
+    for o in ("+=", "-=", "*=", "/=", "**=", "@="):
+        for rg in (False, True):
+            for kind in ("float", "int", "np_scalar", "ndarray", "tensor"):
+                for dt in ("float32", "float64"):
+                    if o == "@=" and kind != "tensor": continue
+                    out.append({"op": "special:augassign", "shapes": [[2, 2]], "args": {"o": o, "rg": rg, "kind": kind, "dtype": dt}})
+    return out
+
+def judge_augassign(case):
+    """Python's augmented assignments on a Tensor: documented in-place changes of tensor data are the optimizer step, the
+    initialisers, batch-norm statistics and gradient zeroing - `t += v` is none of them, so the object that was called t (which
+    an earlier recorded operation may hold as an operand) keeps its data; a graph that used it still differentiates correctly"""
+    sg = harness.load()
+    A = case["args"]; dt = np.dtype(A["dtype"])
+    x = np.array([[1.5, -0.5], [0.75, 2.0]], dtype=dt)
+    t = sg.Tensor(x.copy(), requires_grad=A["rg"])
+    alias = t; snap = np.asarray(alias.data).tobytes()
+    w = sg.Tensor(np.array([[0.5, 1.0], [-2.0, 3.0]], dtype=dt), requires_grad=True)
+    y = w * alias
+    v_ = {"float": 0.5, "int": 2, "np_scalar": dt.type(0.5), "ndarray": np.full((2, 2), 0.5, dtype=dt),
+          "tensor": sg.Tensor(np.full((2, 2), 0.5, dtype=dt))}[A["kind"]]
+    viol = []
+    try:
+        o = A["o"]
+        if o == "+=": t += v_
+        elif o == "-=": t -= v_
+        elif o == "*=": t *= v_
+        elif o == "/=": t /= v_
+        elif o == "**=": t **= (2 if A["kind"] in ("int", "float") else v_)
+        else: t @= v_
+    except harness.HarnessError:
+        raise
+    except Exception:
+        pass            # an augmented form that is not supported may raise; nothing may have changed either way
+    if np.asarray(alias.data).tobytes() != snap:
+        viol.append({"kind": "augassign:operand-modified-in-place", "detail": f"t {A['o']} <{A['kind']}> ({A['dtype']}, requires_grad={A['rg']}) changed the data of "
+                     "the tensor object that was bound to t (still referenced elsewhere) in place"})
+    g = np.array([[1.0, -1.0], [0.5, 2.0]], dtype=dt)
+    try:
+        y.backward(sg.Tensor(g.copy()))
+        if not np.allclose(np.asarray(w.grad.data, dtype=np.float64), g.astype(np.float64) * x.astype(np.float64), rtol=1e-6, atol=0):
+            viol.append({"kind": "augassign:earlier-graph-disturbed", "detail": f"y = w * t recorded before `t {A['o']} ...`: w.grad is {np.asarray(w.grad.data).ravel()}, "
+                         f"expected g * (old t) = {(g * x).ravel()}"})
+    except harness.HarnessError:
+        raise
+    except Exception as e:
+        viol.append({"kind": "augassign:earlier-graph-disturbed", "detail": f"backward of a graph recorded before the augmented assignment raised {type(e).__name__}: {str(e)[:80]}"})
+    return {"nontrivial": True, "outcome": "ok", "violations": viol}
+
 def dispatch(case):
+    if case["op"] == "special:augassign": return judge_augassign(case)
     return judge_special(case) if case["op"].startswith("special:") else judge(case)
 
 def boundary_cases():
@@ -218,7 +270,7 @@ def boundary_cases():
     return out
 
 def all_cases(tier):
-    return ct.cases(tier, "grad") + cn.cases(tier, "grad") + clone_detach_cases() + boundary_cases()
+    return ct.cases(tier, "grad") + cn.cases(tier, "grad") + clone_detach_cases() + boundary_cases() + augassign_cases()
 
 def replay(case):
     with harness.quiet():
@@ -231,7 +283,7 @@ def run(tier, seed):
            "rule": "every case of the tensor-op and nn catalogues (C01/C02 lattices) x operand layouts {separate arrays, strided views of "
                    "one arena with guard cells, overlapping views x / reversed x for same-shaped pairs}: bytes of operands, arena, "
                    "bystander tensor (data and grad), caller's g and result before/after forward and backward; repeat for bit-identity; "
-                   "clone()/detach() storage independence over all shapes of rank <= 3; operands on the boundary of the domain (exact zeros under "
+                   "clone()/detach() storage independence over all shapes of rank <= 3; augmented assignments (t += v ... t @= v, every operand kind) leave the object formerly bound to t and graphs that used it alone; operands on the boundary of the domain (exact zeros under "
                    "sqrt/log/negative and fractional powers, zero denominators, probabilities exactly 0 and 1) where values and gradients may be non-finite; batch-norm running statistics in training mode "
                    "are the only whitelisted change; non-trivial = accepted",
            "samples": r["samples"], "exhaustive": True, "outcomes": r["outcomes"]}
